@@ -456,8 +456,14 @@ func (a *effAnalysis) analysable(fn *ssa.Function) bool {
 	if _, ok := extSummary[calleeName(fn)]; ok {
 		return false
 	}
-	return strings.HasPrefix(p, "seehuhn.de/go/geom")
+	return strings.HasPrefix(p, "seehuhn.de/go/geom") || leafStdPkgs[p]
 }
+
+// leafStdPkgs: small standard-library packages without I/O, reflection or global state whose
+// function bodies are analysed like module code instead of being listed one by one (a call of
+// binary.BigEndian.AppendUint32 then has the effects of the `append` it consists of; PutUint32
+// writes its slice argument).  Entries of extSummary take precedence.
+var leafStdPkgs = map[string]bool{"encoding/binary": true, "cmp": true, "slices": true, "maps": true, "golang.org/x/exp/slices": true, "golang.org/x/exp/maps": true, "unicode/utf16": true}
 
 func (a *effAnalysis) write(fn *ssa.Function, target ssa.Value, what string, e *Effects) {
 	r := a.roots(target, map[ssa.Value]bool{})
